@@ -144,6 +144,7 @@ theorem lookupPiece_eq {input : List Scaffold} {p : Fragment} {sc : Scaffold} (h
       | _ => none := by
   unfold lookupPiece
   rw [hname, C08.find?_name input sc hn hsc]
+  rfl
 
 /-- a piece that meets a contig of its scaffold has a lookup result, and `pieceO` is it -/
 theorem lookupPiece_of_meets {input : List Scaffold} {p : Fragment} {sc : Scaffold} (hn : (input.map (·.name)).Nodup)
